@@ -25,6 +25,21 @@ frame sheared to that distance (1e-12; decides choppers that are nearly at the
 frame position, where a time shift is below the 1e-9 band of the neutron test).
 Nothing is remembered per Chopper object: the chopper model is rebuilt from the
 fields at every observed call (the dataclasses are mutable).
+
+``FrameSequence.chop`` takes *a collection* of choppers: the workload hands them over as
+every kind of iterable Python offers (sequences, re-iterable views, iterators that can
+be walked once, user-defined classes of each kind).  An iterator cannot be inspected
+without consuming it, so the harness records what it put into the iterable and the
+monitor of ``FrameSequence.chop`` looks the argument object up: the result must extend
+the sequence by one frame per chopper *handed in* and its last frame is judged against
+those choppers.  One ``chop`` call is compared with sequences of ``chop`` /
+``propagate_to`` calls over the same choppers.
+
+Pulse rectangles without extent (monochromatic, instantaneous, a single point; exactly
+and up to a few ulp): the neutrons occupy a segment (a point) of the plane and the
+frames consist of segments (points).  Membership is then judged along that line
+(``tofsim.on_segment`` / ``at_point``) with the same 1e-9 band, now around the *ends*
+of every reported segment; neutrons in the band stay undecided.
 """
 
 from __future__ import annotations
@@ -53,9 +68,18 @@ RULE = (
     'Every shard starts with forced cascades: 8 structural ones, 3 with nearly coinciding distances (cold '
     'neutrons, far choppers, cutting windows; the relative separations form a ladder 1e-12..1e-4 over the '
     'shards), 1 that reassigns fields of live Chopper / Frame / FrameSequence objects between calls. '
+    'Then 1 cascade that hands 3 choppers to FrameSequence.chop as every kind of iterable (list, tuple, deque, '
+    'user sequence; dict view, user iterable; generator expression / function, filter, map, zip, list / tuple '
+    'iterator, reversed, itertools.chain, user iterator; empty ones), each in its own order, and applies them by '
+    '2 and 3 calls (chop.chop, chop.propagate_to.chop; split by distance) instead of one; in all other cascades '
+    'the form of every chopper collection is drawn at random (a list half of the time) and 30 % add one split '
+    'program. Then 3 cascades with a pulse rectangle without extent: wavelength_min == wavelength_max, time_min '
+    '== time_max, both, and the same up to 1..8 ulp (6 classes, 2 per slot alternating over the shards; 8 % of '
+    'the random cascades), first chopper at 0 m, windows incl. exactly touching and zero-width ones (open == '
+    'close; 3 % of all windows). '
     'Every returned frame is judged with ~2000-4000 simulated neutrons; distinct = distinct (number of '
     'choppers, window classes, program shape, units, equal / near / ulp / source / behind / backward flags) '
-    'signatures; a cascade without choppers and without propagation is trivial'
+    'signatures (+ pulse class); a cascade without choppers and without propagation is trivial'
 )
 ASSUMPTIONS = [
     'numpy long double (x87 80 bit) evaluates t_emit + d*lambda*m_n/h with error << 1e-15 relative',
@@ -69,6 +93,15 @@ ASSUMPTIONS = [
     'zero-area subframe; chopper window times are given in seconds and all chopper distances of one list in '
     'one unit (other units make the code raise UnitError; units are not part of the property); one-ulp '
     'separations are only generated when frame and chopper distances are float64 metres (no conversion)',
+    'pulse rectangles without extent in one direction (zero or <= 1e-13 relative; generated: 0 and 1..8 ulp): '
+    'the transmitted set is a union of segments on the image of the pulse; a reported polygon covers the '
+    'interval between its extreme vertices along that line; neutrons within 1e-9 (normalised) of an end of a '
+    'reported segment are undecided, so are all neutrons if some reported vertex is more than 1e-9 off the line '
+    '(plane test, counted); zero-length subframes carry no neutrons there. Pulse without any extent: a polygon '
+    'whose vertices are all within 1e-9 of the neutron is the neutron',
+    'the content of an iterable handed to FrameSequence.chop is what the harness put into it (recorded per '
+    'object; iterators cannot be inspected without consuming them); a chop call with an iterable the harness '
+    'did not record and that is not a list / tuple is counted and not judged',
     'mutable objects: fields are reassigned (chopper.distance = ..., chopper.time_open = ..., '
     'sequence.frames = ..., frame.distance / frame.subframes = equivalent values) and window arrays are '
     'written in place; a distance Variable that a Frame shares with the Chopper or with the propagate_to '
@@ -82,7 +115,10 @@ LEVEL_TEXT = ('exploration: every frame returned by chop / propagate_to / FrameS
               'cascades is compared with an independent transmission simulation of ~2000-4000 neutrons (grid, pulse '
               'edges, pre-images of all window edges at +-3e-9, +-1e-6 and +-1e-4); the frame chop returns must '
               'carry the distance the chopper has at the time of the call; bounds and subbounds of every '
-              'frame are compared with the observed vertices and must not raise. Sampling of a continuous '
+              'frame are compared with the observed vertices and must not raise; FrameSequence.chop must apply '
+              'exactly the choppers handed in, whatever kind of iterable carries them, and give the frames of '
+              'any split into several chop / propagate_to calls; pulses without extent are judged along the '
+              'line their neutrons occupy. Sampling of a continuous '
               'input space: held on the decided neutrons / frames reported, not a proof.')
 LEVEL_NOTE = ('trusted: numpy long double, the independent SI table, scipp containers, scipp.constants h and '
               'm_n; the polygons are read from the frames the code returns')
@@ -98,7 +134,9 @@ TOL_SAME = 1e-12
 # 3e-9 (relative) -- e.g. by a distance error of 3e-9 d -- misclassifies a decided neutron.
 EDGE_OFFSETS = (3e-9, 1e-6, 1e-4)
 WINDOW_CLASSES = ['cuts_low', 'cuts_high', 'cuts_both', 'contains', 'misses', 'touches_vertex']
-FORCED = ['window:' + c for c in WINDOW_CLASSES] + [
+# pulse rectangles without extent in wavelength / in time / in both, exactly and up to a few ulp
+PULSE_CLASSES = ['mono', 'instant', 'point', 'near_mono', 'near_instant', 'near_point']
+FORCED = ['window:' + c for c in WINDOW_CLASSES] + ['window:zero_width'] + [
     'zero_choppers', 'five_choppers', 'equal_distance_choppers', 'propagate_to_chopper_distance',
     'backward_propagation', 'chop_from_frame_at_chopper_distance', 'all_neutrons_blocked',
     'distance_range_propagation', 'adjacent_windows',
@@ -108,7 +146,10 @@ FORCED = ['window:' + c for c in WINDOW_CLASSES] + [
     'mutable:reassigned_chopper_windows', 'mutable:chopper_windows_changed_in_place',
     'mutable:reassigned_frame_fields', 'mutable:reassigned_sequence_frames',
     'mutable:chopper_reused_in_second_cascade',
-]
+    'iterable:empty', 'program:chop_then_chop', 'program:chop_propagate_chop',
+    'degenerate_pulse:chopper_at_source_distance', 'degenerate_pulse:window:touches_vertex',
+    'degenerate_pulse:window:zero_width', 'degenerate_pulse:window:cuts_both',
+] + ['pulse:' + c for c in PULSE_CLASSES]
 
 
 # ------------------------------------------------------------- conversions ---
@@ -200,6 +241,9 @@ class Monitors:
         self.program: list = []
         self.tags: set = set()
         self.irregular_seen = 0
+        self.handed: dict[int, tuple] = {}  # id(iterable handed to FrameSequence.chop) -> (it, form, choppers)
+        self.judged: set = set()  # (pulse, history, distance, polygon bytes) of frames judged already
+        self.kinds: dict[int, str] = {}
 
     # -- ghost helpers -------------------------------------------------------
     def g(self, frame):
@@ -213,10 +257,37 @@ class Monitors:
         key = (_hex(m.distance), tuple(_hex(x) for x in m.t_open), tuple(_hex(x) for x in m.t_close))
         return self.models.setdefault(key, m)
 
+    def kind(self, pulse):
+        k = self.kinds.get(id(pulse))
+        if k is None:
+            k = self.kinds[id(pulse)] = ts.pulse_kind(pulse)
+        return k
+
+    def membership(self, kind, pulse, arr, lam, polys, d, tscale):
+        """(inside, undecided, distance) of the points (arr, lam) w.r.t. the reported polygons.  Ordinary
+        pulse: even-odd test in the plane, 1e-9 band around every polygon edge.  Pulse without extent in
+        wavelength or in time: every neutron lies on one segment, the polygons are segments on that line;
+        membership is judged along the line, 1e-9 band around the ends of every reported segment.  Pulse
+        without any extent: a polygon within 1e-9 of the neutron's point is that point."""
+        ctx = self.ctx
+        if kind in ('mono', 'instant'):
+            r = ts.on_segment(arr, lam, polys, ts.pulse_image_ends(pulse, kind, d), tscale, pulse.l1, BAND)
+            if r is not None:
+                ctx.event('transmission_along_line:' + kind)
+                return r
+            ctx.count('degenerate_pulse:polygon_vertex_off_the_line:plane_test_used')
+        elif kind == 'point':
+            ctx.event('transmission_at_point')
+            return ts.at_point(arr, lam, polys, tscale, pulse.l1, BAND)
+        return ts.in_polygons(arr, lam, polys, tscale, pulse.l1, BAND)
+
     def neutrons(self, pulse, hist):
         base = self.base_neutrons.get(id(pulse))
         if base is None:
-            base = ts.pulse_neutrons(pulse, self.rng, self.n_grid)
+            if self.kind(pulse) == 'point':
+                base = ts.pulse_neutrons(pulse, self.rng, 2, 2)  # (all of them are the same neutron)
+            else:
+                base = ts.pulse_neutrons(pulse, self.rng, self.n_grid)
             self.base_neutrons[id(pulse)] = base
         out = base
         for c in hist:
@@ -232,6 +303,17 @@ class Monitors:
         """transmitted <=> inside the union of polygons, for one returned frame."""
         ctx = self.ctx
         try:
+            key = (id(pulse), tuple(id(c) for c in hist), tuple(_hex(x) for x in np.atleast_1d(dist)),
+                   b''.join(np.ascontiguousarray(v.values).tobytes() for sub in frame.subframes
+                            for v in (sub.time, sub.wavelength)), len(frame.subframes))
+            if key in self.judged:
+                # bit-identical to a frame of the same pulse behind the same choppers that was judged
+                # (same pulse, same expected chopper history, same distance, same polygons: same verdict)
+                ctx.count('transmission:identical_frame_judged_once')
+                ctx.event('transmission:' + label)
+                return
+            self.judged.add(key)
+            kind = self.kind(pulse)
             nt = self.neutrons(pulse, hist)
             passed, near_ch = ts.transmitted(nt.te, nt.lam, hist, BAND)
             dists = np.atleast_1d(dist)
@@ -239,16 +321,19 @@ class Monitors:
             for k, d in zip(slices, dists, strict=True):
                 polys = _polys(frame, k)
                 arr = ts.time_at(nt.te, nt.lam, d)
-                tscale = max(_maxabs(polys), np.max(np.abs(arr)))
-                inside, near_poly, mind = ts.in_polygons(arr, nt.lam, polys, tscale, pulse.l1, BAND)
+                tscale = max(_maxabs(polys), np.max(np.abs(arr)), LD(1e-300))
+                inside, near_poly, mind = self.membership(kind, pulse, arr, nt.lam, polys, d, tscale)
                 decided = ~near_ch & ~near_poly
                 bad = decided & (passed != inside)
                 ctx.count('neutrons_decided', int(decided.sum()))
+                if kind != 'area':
+                    ctx.count('neutrons_decided:degenerate_pulse', int(decided.sum()))
+                    ctx.count('neutrons_decided_transmitted:degenerate_pulse', int((decided & passed).sum()))
                 ctx.count('neutrons_decided_transmitted', int((decided & passed).sum()))
                 ctx.count('undecided:window_edge_band', int(near_ch.sum()))
                 ctx.count('undecided:polygon_edge_band', int((near_poly & ~near_ch).sum()))
                 ctx.event('transmission:' + label)
-                if decided.any() and polys:
+                if decided.any() and polys and kind == 'area':
                     ctx.dev('closest_decided_neutron_to_polygon_edge(-log10)',
                             -float(np.log10(np.min(mind[decided]))))
                 if not (decided & passed).any() and len(hist) > 0:
@@ -257,7 +342,7 @@ class Monitors:
                     i = int(np.flatnonzero(bad)[0])
                     direction = 'transmitted_but_outside_polygons' if passed[i] else 'blocked_but_inside_polygons'
                     case = _describe(pulse, hist, d)
-                    case.update({'label': label, 'program': self.program,
+                    case.update({'label': label, 'program': self.program, 'pulse_kind': kind,
                                  'neutron': {'t_emit': repr(float(nt.te[i])), 'lambda': repr(float(nt.lam[i])),
                                              't_emit_hex': _hex(nt.te[i]), 'lambda_hex': _hex(nt.lam[i]),
                                              'arrival': repr(float(arr[i])),
@@ -269,7 +354,8 @@ class Monitors:
                                               for t, w in polys[:6]]})
                     ctx.violation('transmission_mismatch',
                                   f'{label}: {int(bad.sum())} of {int(decided.sum())} decided neutrons {direction} '
-                                  f'after {len(hist)} chopper(s)', case, direction=direction, where=label)
+                                  f'after {len(hist)} chopper(s)' + ('' if kind == 'area' else f' ({kind} pulse)'),
+                                  case, direction=direction, where=label)
                 self.judge_band(polys, pulse, hist, d, label)
         except Exception:  # noqa: BLE001
             ctx.oracle_error('C11 judge_frame ' + label)
@@ -681,7 +767,16 @@ class Monitors:
     def on_seq_chop(self, ev):
         ctx = self.ctx
         seq = ev.args['self']
-        chs = list(ev.args['choppers'])
+        given = ev.args['choppers']  # the object the caller handed in (read when the call started)
+        h = self.handed.get(id(given))
+        if h is not None and h[0] is given:
+            # any iterable, possibly one that can be walked only once: the harness recorded its content
+            form, chs = h[1], list(h[2])
+        elif isinstance(given, list | tuple):
+            form, chs = type(given).__name__, list(given)
+        else:
+            ctx.count('FrameSequence.chop:content_of_iterable_unknown:not_judged')
+            return
         g = self.g(seq.frames[-1]) if seq.frames else None
         if g is None:
             ctx.count('untracked_frame:FrameSequence.chop')
@@ -693,13 +788,15 @@ class Monitors:
             return
         case = _describe(g.pulse, (*g.hist, *ms), g.dist)
         case['listed_order_distances_m'] = [repr(float(m.distance)) for m in ms]
+        case['choppers_handed_in_as'] = form
+        case['program'] = self.program
         if ev.exc is not None:
             if isinstance(ev.exc, ValueError) and any(m.distance < g.dist for m in ms):
                 ctx.count('refused:chopper_behind_frame')
                 return
             ctx.event('FrameSequence.chop')
-            ctx.violation('sequence_chop_raised', f'FrameSequence.chop raised {type(ev.exc).__name__}: {ev.exc}',
-                          case, exc=type(ev.exc).__name__)
+            ctx.violation('sequence_chop_raised', f'FrameSequence.chop({form}) raised {type(ev.exc).__name__}: '
+                          f'{ev.exc}', case, exc=type(ev.exc).__name__, iterable=iterable_kind(form))
             return
         try:
             res = ev.result
@@ -716,8 +813,17 @@ class Monitors:
                 if gl is None or sorted(gl.ids[len(g.ids):]) != sorted(id(c) for c in chs):
                     ok, what = False, 'the last frame did not go through exactly the listed choppers (trace)'
             ctx.event('FrameSequence.chop')
+            ctx.event('FrameSequence.chop:' + iterable_kind(form))
             if not ok:
-                ctx.violation('sequence_chop_structure', 'FrameSequence.chop: ' + what, case)
+                ctx.violation('sequence_chop_structure', f'FrameSequence.chop({form} of {len(chs)} choppers): ' + what,
+                              case, iterable=iterable_kind(form))
+                # the clause of the property itself: the last frame of the result against the choppers
+                # that were handed in (not against the ones the trace saw being applied)
+                last = res.frames[-1]
+                gl = self.g(last)
+                if gl is not None and np.ndim(gl.dist) == 0:
+                    want_hist = (*g.hist, *sorted(ms, key=lambda m: m.distance))
+                    self.judge_frame(last, g.pulse, want_hist, gl.dist, 'FrameSequence.chop')
         except Exception:  # noqa: BLE001
             ctx.oracle_error('C11 on_seq_chop')
 
@@ -787,29 +893,44 @@ class Monitors:
             ctx.oracle_error('C11 on_getitem')
 
     # -- harness-driven comparison of two chop orders ----------------------------------------------
-    def judge_permutation(self, seq_a, seq_b, n0, cond):
-        """Frames of two FrameSequence.chop runs over the same choppers listed in different order."""
+    def judge_permutation(self, seq_a, seq_b, n0, cond, kind='order_dependence',
+                          text='FrameSequence.chop depends on the listed order of the choppers', only_last=False,
+                          event='permutation'):
+        """Frames of two FrameSequence.chop runs over the same choppers: listed in different order /
+        handed in as different kinds of iterable (kind 'order_dependence'), or applied by one chop call and
+        by a sequence of chop / propagate_to calls (kind 'call_sequence_dependence'; ``only_last``: the
+        sequences have different lengths, the final frames are compared)."""
         ctx = self.ctx
         try:
             tol = max(TOL_SAME, 64 * EPS * cond)
             worst = 0.0
-            ok = len(seq_a.frames) == len(seq_b.frames)
+            ok = only_last or len(seq_a.frames) == len(seq_b.frames)
             what = 'different number of frames'
             compared = 0
             if ok:
-                for fa, fb in zip(seq_a.frames[n0:], seq_b.frames[n0:], strict=True):
+                pairs = ([(seq_a.frames[-1], seq_b.frames[-1])] if only_last
+                         else zip(seq_a.frames[n0:], seq_b.frames[n0:], strict=True))
+                for fa, fb in pairs:
                     ga, gb = self.g(fa), self.g(fb)
                     if ga is None or gb is None:
                         continue
                     if sorted(ga.ids) != sorted(gb.ids):
+                        if only_last:
+                            ok, what = False, 'the final frames did not go through the same choppers (trace)'
+                            break
                         continue  # equal-distance choppers applied in the other order: compare later frames
+                    if np.ndim(ga.dist) != 0 or ga.dist != gb.dist:
+                        continue
                     # subframes of zero area (a window edge that only touches the polygon) carry no
                     # neutrons: whether they are reported may depend on the order, they are not compared
                     pa, pb = _polys(fa), _polys(fb)
                     sc_t = max(_maxabs(pa), _maxabs(pb), LD(1e-300))
                     na, nb = len(pa), len(pb)
-                    pa = [p for p in pa if _area(p, sc_t, ga.pulse.l1) > BAND]
-                    pb = [p for p in pb if _area(p, sc_t, ga.pulse.l1) > BAND]
+                    # (frames of a pulse without extent in one direction consist of segments: there the
+                    # subframes that carry no neutrons are the ones without length)
+                    size = _area if self.kind(ga.pulse) == 'area' else _extent
+                    pa = [p for p in pa if size(p, sc_t, ga.pulse.l1) > BAND]
+                    pb = [p for p in pb if size(p, sc_t, ga.pulse.l1) > BAND]
                     ctx.count('permutation:zero_area_subframes_ignored', na - len(pa) + nb - len(pb))
                     compared += 1
                     if (len(pa) == 0) != (len(pb) == 0):
@@ -823,12 +944,13 @@ class Monitors:
                     h = float(ts.hausdorff_vertices(va, vb, scale_t, ga.pulse.l1))
                     worst = max(worst, h)
             if compared:
-                ctx.event('permutation')
+                ctx.event(event)
                 ctx.dev('permuted_order_vertex_distance[normalised]', worst)
             if not ok or worst > tol:
                 g = self.g(seq_a.frames[-1])
                 case = _describe(g.pulse, g.hist, g.dist) if g else {}
-                ctx.violation('order_dependence', 'FrameSequence.chop depends on the listed order of the choppers: '
+                case['program'] = self.program
+                ctx.violation(kind, text + ': '
                               + (what if not ok else f'vertices differ by {worst:.3g} (allowed {tol:.3g})'), case)
         except Exception:  # noqa: BLE001
             ctx.oracle_error('C11 judge_permutation')
@@ -839,6 +961,122 @@ def _area(poly, tscale, lscale):
     x = poly[0] / LD(tscale)
     y = poly[1] / LD(lscale)
     return abs(np.sum(x * np.roll(y, -1) - np.roll(x, -1) * y)) / 2
+
+
+def _extent(poly, tscale, lscale):
+    """Largest extent of a polygon in the normalised plane."""
+    return max(np.ptp(poly[0]) / LD(tscale), np.ptp(poly[1]) / LD(lscale))
+
+
+# ----------------------------------------- the ways Python offers to hand over a collection ---
+class _UserSequence:
+    """Old sequence protocol only: __len__ and __getitem__ (no __iter__)."""
+
+    def __init__(self, items):
+        self._items = list(items)
+
+    def __len__(self):
+        return len(self._items)
+
+    def __getitem__(self, i):
+        return self._items[i]
+
+
+class _UserIterable:
+    """__iter__ only; a fresh iterator per call."""
+
+    def __init__(self, items):
+        self._items = list(items)
+
+    def __iter__(self):
+        return iter(list(self._items))
+
+
+class _UserIterator:
+    """An iterator object: __iter__ returns self, can be walked once."""
+
+    def __init__(self, items):
+        self._items = list(items)
+        self._k = 0
+
+    def __iter__(self):
+        return self
+
+    def __next__(self):
+        if self._k >= len(self._items):
+            raise StopIteration
+        self._k += 1
+        return self._items[self._k - 1]
+
+
+def _generator_function(items):
+    yield from items
+
+
+def _identity(x):
+    return x
+
+
+def _always(x):
+    return True
+
+
+def _make_iterable(form, items):
+    import collections
+    import itertools
+
+    items = list(items)
+    if form == 'list':
+        return list(items)
+    if form == 'tuple':
+        return tuple(items)
+    if form == 'dict_values':
+        return {f'chopper{k}': c for k, c in enumerate(items)}.values()
+    if form == 'deque':
+        return collections.deque(items)
+    if form == 'user_sequence':
+        return _UserSequence(items)
+    if form == 'user_iterable':
+        return _UserIterable(items)
+    if form == 'generator_expression':
+        return (c for c in items)
+    if form == 'dict_items_generator':
+        return (c for name, c in {f'chopper{k}': c for k, c in enumerate(items)}.items() if name != 'unused')
+    if form == 'generator_function':
+        return _generator_function(items)
+    if form == 'filter':
+        return filter(_always, items)
+    if form == 'map':
+        return map(_identity, items)
+    if form == 'list_iterator':
+        return iter(items)
+    if form == 'tuple_iterator':
+        return iter(tuple(items))
+    if form == 'reversed':
+        return reversed(items[::-1])
+    if form == 'itertools_chain':
+        return itertools.chain(items[:1], items[1:])
+    if form == 'zip_generator':
+        return (c for _, c in zip(range(len(items)), items, strict=True))
+    if form == 'user_iterator':
+        return _UserIterator(items)
+    raise ValueError(form)
+
+
+ITERABLE_FORMS = {
+    'list': 'sequence', 'tuple': 'sequence', 'deque': 'sequence', 'user_sequence': 'sequence',
+    'dict_values': 'reiterable', 'user_iterable': 'reiterable',
+    'generator_expression': 'one_shot', 'dict_items_generator': 'one_shot', 'generator_function': 'one_shot',
+    'filter': 'one_shot', 'map': 'one_shot', 'list_iterator': 'one_shot', 'tuple_iterator': 'one_shot',
+    'reversed': 'one_shot', 'itertools_chain': 'one_shot', 'zip_generator': 'one_shot', 'user_iterator': 'one_shot',
+}
+
+
+FORCED += ['iterable:' + f for f in ITERABLE_FORMS]
+
+
+def iterable_kind(form):
+    return ITERABLE_FORMS.get(form, 'sequence')
 
 
 def _polys_flat(frame):
@@ -929,6 +1167,8 @@ def make_windows(rng, ctx, pre, fallback, forced_cls=None):
             ta, tb = fallback
         w = tb - ta if tb > ta else max(fallback[1] - fallback[0], 1e-4)
         cls = WINDOW_CLASSES[int(rng.integers(0, len(WINDOW_CLASSES)))]
+        if rng.random() < 0.03:
+            cls = 'zero_width'
         if forced_cls and k == 0:
             cls = forced_cls
         if cls == 'touches_vertex' and not ext:
@@ -950,6 +1190,13 @@ def make_windows(rng, ctx, pre, fallback, forced_cls=None):
             else:
                 o = tb + u(0.05, 1) * w
                 c = o + u(0.1, 1) * w
+        elif cls == 'zero_width':
+            # a window without duration (open == close): inside the frame, or at an observed vertex time
+            if ext and rng.random() < 0.3:
+                e = ext[int(rng.integers(0, len(ext)))]
+                o = c = float(e[2].ravel()[int(rng.integers(0, e[2].size))])
+            else:
+                o = c = ta + u(0.05, 0.95) * w
         else:  # touches_vertex: an edge equals an observed vertex time bit for bit
             allv = np.concatenate([e[2] for e in ext])
             e = ext[int(rng.integers(0, len(ext)))]
@@ -966,7 +1213,7 @@ def make_windows(rng, ctx, pre, fallback, forced_cls=None):
                 o, c = float(allv.min()) - u(0.05, 1) * w, float(allv.min())
             else:
                 o, c = float(allv.max()), float(allv.max()) + u(0.05, 1) * w
-        if k > 0 and rng.random() < 0.2 and closes[-1] < c:
+        if k > 0 and cls != 'zero_width' and rng.random() < 0.2 and closes[-1] < c:
             o = closes[-1]  # window starting exactly where the previous one ends
             ctx.hit('adjacent_windows')
         if not o <= c:
@@ -1003,7 +1250,31 @@ def run_cascade(cc, mon, ctx, rng, forced):
         # error delta_d shifts arrival times by ~ (delta_d / d) relative, far outside the 1e-9 band
         t0, dur = 0.0, float(rng.uniform(1e-4, 3e-3))
         l0, band = float(rng.uniform(2.0, 8.0)), float(rng.uniform(1.0, 10.0))
-    args = (_var(t0, tu, 's'), _var(t0 + dur, tu, 's'), _var(l0 * 1e-10, lu, 'm'), _var((l0 + band) * 1e-10, lu, 'm'))
+    # pulse rectangles without extent: monochromatic, instantaneous, a single point; nearly so (1..8 ulp)
+    pk = forced.get('pulse')
+    if pk is None and not long_tof and not forced and rng.random() < 0.08:
+        pk = PULSE_CLASSES[int(rng.integers(0, len(PULSE_CLASSES)))]
+    if pk is not None:
+        if pk in ('instant', 'point'):
+            dur = 0.0
+        if pk in ('mono', 'point'):
+            band = 0.0
+        if pk in ('near_instant', 'near_point') and t0 == 0.0:
+            t0 = float(rng.uniform(1e-4, 1e-3))  # (an ulp needs a magnitude)
+    args = [_var(t0, tu, 's'), _var(t0 + dur, tu, 's'), _var(l0 * 1e-10, lu, 'm'), _var((l0 + band) * 1e-10, lu, 'm')]
+    if pk is not None:
+        def ulps_above(v):
+            x = float(v.value)
+            for _ in range(int(rng.integers(1, 9))):
+                x = float(np.nextafter(x, np.inf))
+            return sc.scalar(x, unit=v.unit)
+        if pk in ('near_instant', 'near_point'):
+            args[1] = ulps_above(args[0])
+            dur = 0.0
+        if pk in ('near_mono', 'near_point'):
+            args[3] = ulps_above(args[2])
+            band = 0.0
+        ctx.hit('pulse:' + pk)
     prog.append(['from_source_pulse', [repr(a.value) + ' ' + str(a.unit) for a in args]])
     seq0 = cc.FrameSequence.from_source_pulse(*args)
     cur = seq0.frames[0]
@@ -1017,6 +1288,8 @@ def run_cascade(cc, mon, ctx, rng, forced):
     if n_ch == 5:
         ctx.hit('five_choppers')
     choppers, all_classes, flags = [], set(), set()
+    if pk is not None:
+        flags.add('pulse:' + pk)
     d_cur = 0.0
     dists_used = [0.0]
     # FrameSequence.chop sorts Variables: one distance unit per chopper list (propagate_to units vary)
@@ -1146,6 +1419,8 @@ def run_cascade(cc, mon, ctx, rng, forced):
         if any(sc.identical(c.distance, dv) for c in choppers):
             ctx.hit('equal_distance_choppers')
             flags.add('equal')
+        if pk is not None and d == 0.0:
+            ctx.hit('degenerate_pulse:chopper_at_source_distance')
         if mode == 'forward' and (forced.get('prop_near') or rng.random() < 0.08):
             # propagate to just in front of the chopper, chop from there
             xb = sc.scalar(_value_in(dv, 'm') * (1.0 - relsep()), unit='m')
@@ -1160,6 +1435,9 @@ def run_cascade(cc, mon, ctx, rng, forced):
         fc = fwin[k] if k < len(fwin) else (forced.get('window') if k == 0 else None)
         o, c, classes = make_windows(rng, ctx, pre, (t0 + d * 2.5e-4 * l0, t0 + dur + d * 2.5e-4 * (l0 + band)), fc)
         all_classes.update(classes)
+        if pk is not None:
+            for cl in classes:
+                ctx.hit('degenerate_pulse:window:' + cl)
         ch = cc.Chopper(distance=dv, time_open=sc.array(dims=['slit'], values=o, unit='s'),
                         time_close=sc.array(dims=['slit'], values=c, unit='s'))
         choppers.append(ch)
@@ -1198,19 +1476,73 @@ def run_cascade(cc, mon, ctx, rng, forced):
             pass
 
     # ---- in situ: the same choppers through FrameSequence.chop, listed and permuted ----
+    forms = list(ITERABLE_FORMS)
+
+    def hand(chs, form=None):
+        """The choppers as the kind of iterable ``form`` (random: a list half of the time); what it
+        contains is recorded for the FrameSequence.chop monitor (an iterator cannot be looked into)."""
+        if form is None:
+            form = 'list' if rng.random() < 0.5 else forms[int(rng.integers(0, len(forms)))]
+        it = _make_iterable(form, chs)
+        mon.handed[id(it)] = (it, form, list(chs))
+        ctx.hit('iterable:' + form)
+        prog.append(['FrameSequence.chop(' + form + ')', [repr(c.distance.value) + ' ' + str(c.distance.unit)
+                                                          for c in chs]])
+        return it
+
+    def shuffled(chs):
+        return [chs[i] for i in rng.permutation(len(chs))]
+
     if choppers:
         prog.append(['FrameSequence.chop', 'listed + permuted'])
-        seq_a = seq0.chop(choppers)
+        seq_a = seq0.chop(hand(choppers, 'list' if forced.get('iterables') else None))
         perm = list(rng.permutation(len(choppers)))
         if len(choppers) > 1 and perm == list(range(len(choppers))):
             perm = perm[::-1]
-        seq_b = seq0.chop([choppers[i] for i in perm])
+        seq_b = seq0.chop(hand([choppers[i] for i in perm]))
         ds = sorted({float(_scalar(c.distance, 'm')) for c in choppers})
         cond = 1.0
         for i, a in enumerate(ds):
             for b in ds[i + 1:]:
                 cond = max(cond, b / (b - a))
-        mon.judge_permutation(seq_a, seq_b, len(seq0.frames), cond)
+        n0 = len(seq0.frames)
+        mon.judge_permutation(seq_a, seq_b, n0, cond)
+        if forced.get('iterables'):
+            # every kind of iterable Python offers, each in its own order
+            for form in forms:
+                mon.judge_permutation(seq_a, seq0.chop(hand(shuffled(choppers), form)), n0, cond,
+                                      event='permutation:iterable_forms')
+            for form in ('list', 'tuple', 'generator_expression', 'list_iterator', 'user_iterator'):
+                seq_a.chop(hand([], form))  # nothing to apply: the monitor demands an unchanged frame list
+                ctx.hit('iterable:empty')
+        # any sequence of chop / propagate_to calls: the choppers in two (three) calls, split by distance
+        srt = sorted(choppers, key=lambda c: float(_scalar(c.distance, 'm')))
+        n_split = 0
+        if len(srt) >= 2 and forced.get('iterables'):
+            n_split = 5
+        elif len(srt) >= 2 and rng.random() < 0.3:
+            n_split = 1
+        txt = 'a sequence of FrameSequence.chop / propagate_to calls differs from one chop call with all choppers'
+        for j in range(n_split):
+            k = 1 + (j % (len(srt) - 1)) if forced.get('iterables') else int(rng.integers(1, len(srt)))
+            f1, f2 = [('list', 'generator_expression'), ('generator_expression', 'list'),
+                      ('filter', 'list_iterator'), ('tuple', 'user_iterator'),
+                      ('dict_values', 'map')][j] if forced.get('iterables') else (None, None)
+            if j % 2 == 0 or len(srt) < 3:
+                two = seq0.chop(hand(shuffled(srt[:k]), f1)).chop(hand(shuffled(srt[k:]), f2))
+                mon.judge_permutation(seq_a, two, n0, cond, kind='call_sequence_dependence', text=txt,
+                                      event='call_sequence')
+                ctx.hit('program:chop_then_chop')
+            else:
+                # three calls with a propagate_to in between (to the next chopper, or to half way)
+                da, db = (float(_scalar(c.distance, 'm')) for c in (srt[k - 1], srt[k]))
+                mid = srt[k].distance.copy() if (rng.random() < 0.5 and ch_unit == 'm') else \
+                    sc.scalar(da + (db - da) / 2, unit='m')
+                prog.append(['FrameSequence.propagate_to', repr(mid.value) + ' ' + str(mid.unit)])
+                three = seq0.chop(hand(shuffled(srt[:k]), f1)).propagate_to(mid).chop(hand(shuffled(srt[k:]), f2))
+                mon.judge_permutation(seq_a, three, n0, cond, kind='call_sequence_dependence', text=txt,
+                                      only_last=True, event='call_sequence')
+                ctx.hit('program:chop_propagate_chop')
         for f in seq_a.frames[1:]:
             bounds_of(f)
         x = pick_forward(ds[-1] + 0.01) if ds[-1] < 149 else ds[-1] + 1.0
@@ -1244,7 +1576,7 @@ def run_cascade(cc, mon, ctx, rng, forced):
             else:
                 dp = sc.scalar(ds[0] * (1.0 - relsep()), unit='m')
             prog.append(['FrameSequence.propagate_to + chop', repr(dp.value) + ' ' + str(dp.unit)])
-            seq_p = seq0.propagate_to(dp).chop(choppers)
+            seq_p = seq0.propagate_to(dp).chop(hand(choppers))
             ctx.hit('sequence_propagate_then_chop')
             flags.add('seq_prop')
             for a in (ds[0], ds[-1]):
@@ -1386,7 +1718,7 @@ def run_mutable(cc, mon, ctx, rng, forced):
 
 # -------------------------------------------------------------------- driver ---
 def plan(tier, seed):
-    n = 22 if tier == 'quick' else 625
+    n = 24 if tier == 'quick' else 625
     return [{'cascades': n} for _ in range(16)]
 
 
@@ -1395,10 +1727,15 @@ def requirements(tier):
           'transmission:getitem': 100, 'shear': 300, '_chop': 1000, 'is_regular': 300,
           'subbounds': 300, 'bounds': 300, 'two_step': 50, 'permutation': 50, 'wavelength_band': 500,
           'FrameSequence.chop': 100, 'FrameSequence.propagate_to': 100,
-          'chop_frame_distance': 300, 'chop_vertices_on_propagated_frame': 300}
+          'chop_frame_distance': 300, 'chop_vertices_on_propagated_frame': 300,
+          'FrameSequence.chop:sequence': 50, 'FrameSequence.chop:reiterable': 30, 'FrameSequence.chop:one_shot': 150,
+          'permutation:iterable_forms': 200, 'call_sequence': 50,
+          'transmission_along_line:mono': 50, 'transmission_along_line:instant': 50, 'transmission_at_point': 50}
     return {'events': ev, 'forced': FORCED,
             'counters': {'neutrons_decided': 200000, 'neutrons_decided_transmitted': 5000,
-                         'observed:cut_through_constant_wavelength_edge': 50}}
+                         'observed:cut_through_constant_wavelength_edge': 50,
+                         'neutrons_decided:degenerate_pulse': 20000,
+                         'neutrons_decided_transmitted:degenerate_pulse': 1000}}
 
 
 # forced structure of the first cascades of every shard (so that every class is reached in every run)
@@ -1422,6 +1759,18 @@ _FORCED_PLAN = [
      'close': True},
     # fields of live Chopper / Frame / FrameSequence objects reassigned between calls
     {'mutable': True},
+    # the choppers handed to FrameSequence.chop as every kind of iterable; one chop call against
+    # sequences of chop / propagate_to calls
+    {'n_choppers': 3, 'iterables': True, 'modes': ['forward', 'forward', 'forward'],
+     'windows': ['cuts_both', 'cuts_low', 'cuts_high']},
+    # pulse rectangles without extent (2 of the 6 classes per slot, alternating over the shards), first
+    # chopper at the source position
+    {'n_choppers': 3, 'pulse_slot': 0, 'modes': ['source', 'forward', 'forward'],
+     'windows': ['contains', 'cuts_both', 'cuts_high']},
+    {'n_choppers': 3, 'pulse_slot': 1, 'modes': ['source', 'forward', 'forward'],
+     'windows': ['cuts_low', 'contains', 'cuts_both']},
+    {'n_choppers': 3, 'pulse_slot': 2, 'modes': ['source', 'forward', 'forward'],
+     'windows': ['cuts_low', 'touches_vertex', 'zero_width']},
 ]
 
 
@@ -1453,6 +1802,9 @@ def run(shard, ctx):
                 forced = {'mutable': True}  # (thorough tier: every 25th cascade)
             if forced.get('close'):
                 forced['ladder'] = int(shard['seed']) + 3 * int(shard['index']) + 7 * k
+            if 'pulse_slot' in forced:
+                forced['pulse'] = PULSE_CLASSES[(2 * forced['pulse_slot'] + (int(shard['seed']) + int(shard['index'])) % 2)
+                                                % len(PULSE_CLASSES)]
             before = ctx.n_violations
             out = None
             try:
